@@ -277,6 +277,15 @@ pub fn render(f: &FactSet, spec: &TextSpec) -> TextFiles {
         s.push('\n');
     }
     out.hpoa = s;
+    // a file whose last line is not terminated (truncating editors, `printf` pipelines): still the same lines
+    if spec.ign_permille > 0 {
+        for (salt, file) in [(80u64, &mut out.obo), (81, &mut out.genes), (82, &mut out.hpoa)] {
+            if mix2(spec.ign_seed, salt) % 4 == 0 && file.ends_with('\n') && !file.ends_with("\n\n") {
+                file.pop();
+                *out.injected.entry("no-final-newline").or_default() += 1;
+            }
+        }
+    }
     out
 }
 
